@@ -435,7 +435,11 @@ func main() {
 						s.Ops[i].Src = src(p.Fset, e)
 						str, err := t.operand(e, string(rune('a'+i)), &s.Ops[i])
 						if err != nil {
+							// still report the site (no CoqName): the driver recipe of its function then judges the real
+							// values against exact arithmetic and produces the failing input
 							fail("%s: %s: %v", where, s.Expr, err)
+							s.UsesFacts = false
+							sites = append(sites, s)
 							return
 						}
 						parts[i] = str
@@ -503,7 +507,12 @@ func main() {
 	sb.WriteString("(* GENERATED by /verif/tools/gen/muldiv_inline from the Go sources on every run. Do not edit. *)\n")
 	sb.WriteString("From Coq Require Import ZArith List.\nRequire Import MTX.Lib.IntWrap MTX.Model.C24_Inline.\nImport ListNotations.\nLocal Open Scope Z_scope.\n\n")
 	var all, typeonly []string
+	nsites := 0
 	for _, s := range sites {
+		if s.CoqName == "" {
+			continue
+		}
+		nsites++
 		sb.WriteString(s.Def + "\n")
 		all = append(all, s.CoqName+"_site")
 		if s.UsesFacts {
@@ -513,7 +522,7 @@ func main() {
 	fmt.Fprintf(&sb, "Definition sites_inline : list inline_site := [%s].\n", strings.Join(all, "; "))
 	sb.WriteString("(* the sites whose ranges rely on a range fact, with the ranges of the Go types alone *)\n")
 	fmt.Fprintf(&sb, "Definition sites_inline_typeonly : list inline_site := [%s].\n", strings.Join(typeonly, "; "))
-	fmt.Fprintf(&sb, "Definition inline_site_count : Z := %d.\n", len(sites))
+	fmt.Fprintf(&sb, "Definition inline_site_count : Z := %d.\n", nsites)
 	if err := os.WriteFile(outPath, []byte(sb.String()), 0o644); err != nil {
 		fmt.Fprintln(os.Stderr, err)
 		os.Exit(2)
